@@ -303,7 +303,7 @@ def fam_eintr(seed, n_random, runs):
             inp, mo, me, kk = rng.choice([0, 1, cap + k + 1]), rng.randint(0, 2 * cap + 3), rng.randint(0, cap + 2), k
         child = rand_child(rng, piped, kk, inp, mo, me)
         calls = [{}] * 8
-        if rng.random() < 0.3:
-            calls = [{"limit": rng.choice([1, k, 2 * k + 1])}] + [{}] * 8
+        if rng.random() < 0.5:
+            calls = [{"limit": rng.choice([1, k, 2 * k + 1])}] + [{}] * 10
         out.append(base("eintr-rnd%d" % j, piped, unit, cap, inp, child, calls, runs=runs, eintr=True))
     return out
